@@ -165,11 +165,6 @@ def apply_op(ctx, op, st: StateManager, model: Model, fr: Fresh, tag):
         model.commit()
         ok = all(len(st._history[k]) == before[k] + (1 if model.cur[k] is not None else 0) for k in HISTORY_STATE_KEYS)
         expect("commit-appends-exactly-one-batch-per-recorded-key", z3.BoolVal(bool(ok)))
-        same_objs = all(st._history[k][i] is old[k][i] for k in HISTORY_STATE_KEYS for i in range(before[k]))
-        expect("commit-keeps-earlier-batches", z3.BoolVal(bool(same_objs)))
-        distinct = all(not (isinstance(st._history[k][-1], np.ndarray) and st._history[k][-1] is st._current[k])
-                       for k in HISTORY_STATE_KEYS if len(st._history[k]) > before[k])
-        expect("committed-batch-does-not-share-the-current-buffer", z3.BoolVal(bool(distinct)))
     elif op == "get_current_key":
         r = st.get_current("u")
         expect("get_current(u)==state", val_eq(r, model.cur["u"]))
